@@ -45,7 +45,7 @@ type master struct {
 func (m *master) spawn(id int) (*worker, error) {
 	w := &worker{id: id}
 	cmd := exec.Command(os.Args[0], "-worker")
-	cmd.Env = append(os.Environ(), "GOMAXPROCS=1")
+	cmd.Env = append(os.Environ(), "GOMAXPROCS=1", "VERIF_PROP="+m.prop)
 	if m.race {
 		w.curPath = filepath.Join(m.workDir, fmt.Sprintf("cur.%d", id))
 		w.logBase = filepath.Join(m.workDir, fmt.Sprintf("race.%d", id))
@@ -134,6 +134,8 @@ func die(code int, f string, a ...any) {
 	os.Exit(code)
 }
 
+var goroot = runtime.GOROOT()
+
 var raceHdr = regexp.MustCompile(`^(Write|Read|Previous write|Previous read|Atomic write|Atomic read|Previous atomic write|Previous atomic read) at 0x[0-9a-f]+ by `)
 
 // parseRace extracts, for the first report in txt, the first non-runtime frame of each access.
@@ -152,6 +154,11 @@ func parseRace(txt string) (funcs [2]string, files [2]string, ok bool) {
 			}
 			loc := strings.TrimSpace(lines[j+1])
 			if strings.HasPrefix(fn, "runtime.") || strings.HasPrefix(fn, "internal/") || strings.HasPrefix(fn, "sync.") || strings.HasPrefix(fn, "sync/atomic.") {
+				continue
+			}
+			// an access inside the standard library or a third-party module is attributed to the first
+			// frame of our own code that led to it (library, harness or shim)
+			if strings.Contains(loc, "/pkg/mod/") || strings.HasPrefix(loc, goroot+"/") {
 				continue
 			}
 			if p := strings.LastIndex(fn, "("); p > 0 {
